@@ -19,6 +19,7 @@ Tie (every run, on /repo's current tree):
 """
 import concurrent.futures
 import hashlib
+import json
 import os
 import re
 import shutil
@@ -50,13 +51,13 @@ def gen_tree(rng, shape, maxd=6, budget=24):
 
     def hook():
         w = {"mixed": "NMMMRCC", "pg": "NMMM", "cyg": "NCCC", "recover": "MMRRN", "tail": "NMMMC",
-             "deep": "MMMN", "cygpg": "MCMC"}[shape]
+             "deep": "MMMN", "cygpg": "MCMC", "plt": "NMMPPC", "plttail": "MPMP"}[shape]
         return rng.choice(w)
 
     def mk(d, allow_tail=True):
         left[0] -= 1
         h = hook()
-        fn = rng.choice({"N": PLAIN_FNS, "M": PLAIN_FNS, "R": RECOVER_FNS, "C": CYG_FNS}[h])
+        fn = rng.choice({"N": PLAIN_FNS, "M": PLAIN_FNS, "R": RECOVER_FNS, "C": CYG_FNS, "P": PLAIN_FNS}[h])
         counter[0] += 1
         n = Node(counter[0], h, [], [], fn)
         if d < maxd and left[0] > 0:
@@ -66,7 +67,7 @@ def gen_tree(rng, shape, maxd=6, budget=24):
                     break
                 n.kids.append(mk(d + 1))
         if allow_tail and left[0] > 0:
-            p = {"tail": 0.7, "mixed": 0.3, "recover": 0.3, "pg": 0.25}.get(shape, 0.1)
+            p = {"tail": 0.7, "mixed": 0.3, "recover": 0.3, "pg": 0.25, "plttail": 0.7, "plt": 0.3}.get(shape, 0.1)
             nt = 0
             while rng.random() < p and nt < 3 and left[0] > 0:
                 n.tails.append(mk(d, allow_tail=(rng.random() < 0.4)))
@@ -112,6 +113,10 @@ def tree_tags(n, tags, parent_hooked=False, in_tail=False):
         tags.add("tailchain=%d" % min(len(n.tails), 3))
         for t in n.tails:
             tags.add("tail:%s->%s" % (n.h, t.h))
+    if n.h == "P":
+        tags.add("plt")
+        if any(k.h in "MRP" for k in n.kids):
+            tags.add("hooked-under-plt")
     if n.h == "R":
         tags.add("recover")
         if any(k.h in "MR" for k in n.kids):
@@ -140,6 +145,8 @@ def harness_lines(ops, owner):
                 lines.append("N")
             elif o[1] in "MR":
                 lines.append("E %d %d" % (n.fn, o[2]))
+            elif o[1] == "P":
+                lines.append("PE %d %d" % (n.fn, o[2]))
             else:
                 lines.append("CE %d %d" % (n.fn, o[2]))
         elif o[0] == "CX":
@@ -191,8 +198,8 @@ class Harness:
     def __init__(self, ctx, objdir):
         self.ctx = ctx
         self.exe = os.path.join(ctx.scratch, "c01_harness")
-        build.cc([HARNESS_SRC] + build.libmcount_objs(objdir, ""), self.exe, objdir,
-                 extra=build.LINK_LIBS + ["-DLIBMCOUNT"])
+        objs = [o for o in build.libmcount_objs(objdir, "") if not o.endswith("/plthook.op")]
+        build.cc([HARNESS_SRC] + objs, self.exe, objdir, extra=build.LINK_LIBS + ["-DLIBMCOUNT", "-DC01_WITH_PLT"])
         self.n = 0
 
     def run(self, lines, nshow, env=None):
@@ -229,6 +236,8 @@ def parse_shadow(tree, ops, owner, out, nshow, env, crashed, err):
         if k[0] == "E":
             if int(k[1]) != 0:
                 owner[i].h = "N"             # not hooked: depth limit / filter
+            errno_ok.append(k[2] == "1")
+        elif k[0] == "PE":
             errno_ok.append(k[2] == "1")
         elif k[0] in ("CE", "CX"):
             errno_ok.append(k[1] == "1")
@@ -307,48 +316,76 @@ def run_xmm(h, before, clobber):
     return [(vals[2 * i], vals[2 * i + 1]) for i in range(16)]
 
 
+def run_hook_xmm(h, rng):
+    """mcount_entry / mcount_exit called with chosen xmm0-15 while a libc function they reach overwrites every
+    xmm register -> [(hook, before, after)]"""
+    def words(pairs):
+        out = []
+        for lo, hi in pairs:
+            out += ["%x" % lo, "%x" % hi]
+        return " ".join(out)
+    b = [gen_xmm(rng, "rnd")[0] for _ in range(4)]
+    lines = ["P 1 100", "XE 0 1 " + words(b[0]), "P 2 101", "XE 1 2 " + words(b[1]), "XR 2 " + words(b[2]), "XR 1 " + words(b[3])]
+    rc, out, err = h.run(lines, 4)
+    res = []
+    for hook, bef, line in (("mcount_entry", b[0], out[1]), ("mcount_entry", b[1], out[3]),
+                            ("mcount_exit", b[2], out[4]), ("mcount_exit", b[3], out[5])):
+        k = line.partition(" | ")[0].split()
+        vals = [int(x, 16) for x in k[-32:]]
+        res.append((hook, bef, [(vals[2 * i], vals[2 * i + 1]) for i in range(16)], k[:len(k) - 32]))
+    return res
+
+
 def coq_pairs(l):
     return "[%s]" % "; ".join("(%d, %d)" % p for p in l)
 
 
-PRE = """From Coq Require Import ZArith List Bool.
+PRE = """From Coq Require Import ZArith List Bool String.
 Import ListNotations.
 Require Import UV.C01.Model.
 Local Open Scope Z_scope.
 """
 
 
-def evaluate_chunk(ctx, scases, xcases, name):
+def evaluate_chunk(ctx, scases, xcases, name, hcases=()):
     defs = "Local Open Scope nat_scope.\nDefinition scases : list shadow_case := [\n%s\n].\nLocal Open Scope Z_scope.\n" % ";\n".join(coq_shadow_case(c) for c in scases)
     defs += "Definition xcases : list xmm_case := [\n%s\n].\n" % ";\n".join(
         "{| xc_before := %s; xc_clobber := %s; xc_after := %s |}" % (coq_pairs(b), coq_pairs(c), coq_pairs(a))
         for (b, c, a) in xcases)
+    defs += "Definition hcases : list hook_xmm_case := [\n%s\n].\n" % ";\n".join(
+        '{| hx_hook := "%s"%%string; hx_before := %s; hx_after := %s |}' % (hk, coq_pairs(b), coq_pairs(a))
+        for (hk, b, a, _) in hcases)
     res = coq.run_cases(ctx, name, PRE, defs, [
         ("s_mismatch", "bad_indices shadow_agrees scases 0"),
         ("s_violations", "bad_indices shadow_ok scases 0"),
         ("x_mismatch", "bad_indices xmm_agrees xcases 0"),
         ("x_violations", "bad_indices xmm_ok xcases 0"),
+        ("h_mismatch", "bad_indices hook_xmm_agrees hcases 0"),
+        ("h_violations", "bad_indices hook_xmm_ok hcases 0"),
     ])
     if res is None:
         return None
     return {k: coq.parse_nat_list(v) for k, v in res.items()}
 
 
-def evaluate(ctx, scases, xcases, name="cases", chunk=50):
+def evaluate(ctx, scases, xcases, name="cases", chunk=50, hcases=()):
     """model and checker evaluated by vm_compute inside Coq; chunks run in parallel coqc processes"""
     jobs = []
     for k, j in enumerate(range(0, max(len(scases), 1), chunk)):
         jobs.append((j, scases[j:j + chunk], xcases if k == 0 else []))
     with concurrent.futures.ThreadPoolExecutor(max_workers=6) as ex:
-        rs = list(ex.map(lambda jb: evaluate_chunk(ctx, jb[1], jb[2], "%s_%d" % (name, jb[0])), jobs))
+        rs = list(ex.map(lambda jb: evaluate_chunk(ctx, jb[1], jb[2], "%s_%d" % (name, jb[0]),
+                                                   hcases if jb[0] == 0 else ()), jobs))
     if any(r is None for r in rs):
         return None
-    res = {"s_mismatch": [], "s_violations": [], "x_mismatch": [], "x_violations": []}
+    res = {"s_mismatch": [], "s_violations": [], "x_mismatch": [], "x_violations": [], "h_mismatch": [], "h_violations": []}
     for (j, _, _), r in zip(jobs, rs):
         res["s_mismatch"] += [j + i for i in r["s_mismatch"]]
         res["s_violations"] += [j + i for i in r["s_violations"]]
         res["x_mismatch"] += r["x_mismatch"]
         res["x_violations"] += r["x_violations"]
+        res["h_mismatch"] += r["h_mismatch"]
+        res["h_violations"] += r["h_violations"]
     return res
 
 
@@ -422,6 +459,10 @@ def option_sets(scratch):
         "script": ["-S", spy],
         "recover": ["-T", "f2@recover", "-T", "f5@recover"],
         "libargs": ["-A", "strlen@arg1/s", "-A", "snprintf@arg3/s", "-R", "strtol@retval"],
+        "small-buffer": ["-b", "4k"],
+        "read-trigger": ["-T", "fd@read=proc/statm", "-T", "fc@read=proc/statm", "-T", "f1@read=proc/statm", "-T", "f3@read=page-fault"],
+        "args-g": ["-A", "g@arg1/s", "-A", "q@arg1/s"],
+        "args-f8": ["-A", "f8@arg1/s"],
     }
 
 
@@ -505,9 +546,9 @@ def e2e_plan(ctx):
     """list of (program params, [(mode, opt, optset, live)])"""
     rng = ctx.rng
     plan = []
-    nprog = ctx.n(12, 60)
-    per = ctx.n(12, 24)
-    osets = list(option_sets(ctx.scratch))
+    nprog = ctx.n(10, 60)
+    per = ctx.n(10, 24)
+    osets = [o for o in option_sets(ctx.scratch) if not o.startswith("args-")]
     for pi in range(nprog):
         threads = 4 if pi % 3 == 1 else 1
         classes = None if pi % 2 == 0 else rng.sample(list(G.CLASSES), 3) + ["vector"]
@@ -539,27 +580,33 @@ def e2e(ctx, objdir):
     plan = e2e_plan(ctx)
     osets = option_sets(ctx.scratch)
     jobs = []
+    sources = {}
+    # corpus first: minimised witnesses of defects this check found (all fixed in /repo): ordinary cases
+    cdir = os.path.join(VERIF, "corpus", "C01")
+    for ci, fn in enumerate(sorted(os.listdir(cdir)) if os.path.isdir(cdir) else []):
+        c = json.load(open(os.path.join(cdir, fn)))
+        key = "c%d" % ci
+        sources[key] = c["source"]
+        jobs.append((key, {"corpus": c["name"], "seed": c["name"], "threads": 1}, c["source"],
+                     {"sigs": [c["name"]]}, c["mode"], c["opt"], c["optset"], False))
     for pi, (params, combos) in enumerate(plan):
         src, desc = make_prog(params)
+        sources["p%d" % pi] = src
         for (mode, opt, oset, live) in sorted(set(combos)):
-            jobs.append((pi, params, src, desc, mode, opt, oset, live))
+            jobs.append(("p%d" % pi, params, src, desc, mode, opt, oset, live))
 
     def one(job):
         pi, params, src, desc, mode, opt, oset, live = job
-        exe = compile_prog(work, "p%d" % pi, src, mode, opt)
-        dd = os.path.join(work, "d.%d.%s%s.%s.%d" % (pi, mode, opt, oset, int(live)))
+        exe = compile_prog(work, pi, src, mode, opt)
+        dd = os.path.join(work, "d.%s.%s%s.%s.%d" % (pi, mode, opt, oset, int(live)))
         nat = run_native(exe, dd + ".nat")
         tr = run_traced(objdir, exe, mode, osets[oset], dd, live)
         return job, nat, tr
 
     # compile each binary once before the pool races on it
-    seen = set()
-    for job in jobs:
-        key = (job[0], job[4], job[5])
-        if key not in seen:
-            seen.add(key)
-    with concurrent.futures.ThreadPoolExecutor(max_workers=8) as ex:
-        list(ex.map(lambda k: compile_prog(work, "p%d" % k[0], make_prog(plan[k[0]][0])[0], k[1], k[2]), sorted(seen)))
+    seen = sorted(set((job[0], job[4], job[5]) for job in jobs))
+    with concurrent.futures.ThreadPoolExecutor(max_workers=10) as ex:
+        list(ex.map(lambda k: compile_prog(work, k[0], sources[k[0]], k[1], k[2]), seen))
         results = list(ex.map(one, jobs))
     nbad = 0
     for job, nat, tr in results:
@@ -568,6 +615,8 @@ def e2e(ctx, objdir):
         tags = ["e2e:mode=" + mode, "e2e:" + opt, "e2e:opts=" + oset, "e2e:threads=%d" % params["threads"]]
         if live:
             tags.append("e2e:live")
+        if "corpus" in params:
+            tags.append("corpus:" + params["corpus"])
         for s in desc["sigs"]:
             for cl, ts in G.CLASSES.items():
                 if any(t in s for t in ts):
@@ -624,7 +673,7 @@ def common_meta(ctx):
     ]
 
 
-SHAPES = ["mixed", "pg", "cyg", "recover", "tail", "deep", "cygpg"]
+SHAPES = ["mixed", "pg", "cyg", "recover", "tail", "deep", "cygpg", "plt", "plttail"]
 
 
 def run(ctx):
@@ -671,10 +720,17 @@ def run(ctx):
         ctx.case(key=("xmm", tuple(before)), nontrivial=kind != "hi-zero", tags=["xmm:" + kind],
                  sample={"xmm": {"before0": ["%x" % w for w in before[0]], "after0": ["%x" % w for w in after[0]]}}
                  if i == 0 else None)
-    ctx.log("ran %d call trees and %d xmm cases on libmcount" % (len(scases), len(xcases)))
-    res = evaluate(ctx, [c for c in scases if not c["crashed"]], xcases)
+    hcases = []
+    for i in range(ctx.n(6, 40)):
+        for hc in run_hook_xmm(h, ctx.rng):
+            hcases.append(hc)
+            ctx.case(key=("hookxmm", hc[0], tuple(hc[1])), tags=["hookxmm:" + hc[0]],
+                     sample={"hook_xmm": {"hook": hc[0], "before0": ["%x" % w for w in hc[1][0]],
+                                          "after0": ["%x" % w for w in hc[2][0]]}} if i == 0 and hc[0] == "mcount_exit" else None)
+    ctx.log("ran %d call trees, %d xmm-pair cases and %d hook-call xmm cases on libmcount" % (len(scases), len(xcases), len(hcases)))
+    res = evaluate(ctx, [c for c in scases if not c["crashed"]], xcases, hcases=hcases)
     ctx.log("model evaluated in Coq:", res)
-    verdict(ctx, [c for c in scases if not c["crashed"]], xcases, res)
+    verdict(ctx, [c for c in scases if not c["crashed"]], xcases, res, hcases)
     # ---- monitors
     objdump_monitor(ctx, objdir)
     ctx.log("objdump monitor done")
@@ -685,9 +741,20 @@ def run(ctx):
     ctx.extra["xmm_cases"] = len(xcases)
 
 
-def verdict(ctx, scases, xcases, res):
+def verdict(ctx, scases, xcases, res, hcases=()):
     if res is None:
         return
+    for i in res.get("h_violations", [])[:3]:
+        hk, b, a, _ = hcases[i]
+        ctx.violation("C01 violated: %s does not give back xmm0-7 when a libc function it reaches uses the xmm "
+                      "registers (floating-point arguments / return values of the traced function)" % hk,
+                      {"kind": "hookxmm", "hook": hk, "before": [list(map(hex, p)) for p in b],
+                       "after": [list(map(hex, p)) for p in a]}, True)
+    if res.get("h_mismatch") and not res.get("h_violations"):
+        hk, b, a, _ = hcases[res["h_mismatch"][0]]
+        ctx.violation("hook-call xmm contract (Machine.c_call_xmm with the generated wrappers) and the real %s disagree" % hk,
+                      {"kind": "hookxmm", "hook": hk, "before": [list(map(hex, p)) for p in b],
+                       "after": [list(map(hex, p)) for p in a]}, False)
     for i in res["s_violations"][:3]:
         c = scases[i]
         ctx.violation("C01 violated: a traced function did not return to its real caller / errno changed / the shadow "
@@ -712,7 +779,7 @@ def verdict(ctx, scases, xcases, res):
         ctx.violation("arch-context model (generated from mcount-support.c) and the real pair disagree",
                       {"kind": "xmm", "before": [list(map(hex, p)) for p in b], "clobber": [list(map(hex, p)) for p in cl],
                        "after": [list(map(hex, p)) for p in a]}, False)
-    ctx.extra["disagreements_checked"] = len(res["s_mismatch"]) + len(res["x_mismatch"])
+    ctx.extra["disagreements_checked"] = len(res["s_mismatch"]) + len(res["x_mismatch"]) + len(res.get("h_mismatch", []))
 
 
 def replay(ctx, obj):
@@ -740,6 +807,14 @@ def replay(ctx, obj):
         res = evaluate(ctx, [], [(before, clobber, after)], name="replay")
         ctx.log("replayed xmm case:", res)
         verdict(ctx, [], [(before, clobber, after)], res)
+    elif kind == "hookxmm":
+        import random
+        h = Harness(ctx, objdir)
+        hcs = run_hook_xmm(h, random.Random(1))
+        ctx.case(key="replay", sample={"after0": [hex(w) for w in hcs[0][2][0]]})
+        res = evaluate(ctx, [], [], name="replay", hcases=hcs)
+        ctx.log("replayed hook-call xmm cases:", res)
+        verdict(ctx, [], [], res, hcs)
     elif kind == "e2e":
         work = os.path.join(ctx.scratch, "e2e")
         os.makedirs(work, exist_ok=True)
